@@ -15,6 +15,9 @@ structure WF (k : Kernel) (st : PState) : Prop where
   ne : st.affinity ≠ []
   ioprio : st.ioprio < 65536
   rl : ∀ r, (st.rlimits r).1 < 18446744073709551616 ∧ (st.rlimits r).2 < 18446744073709551616
+  /-- `/proc/stat` never shows more `cpuN` lines than there are possible CPU ids (fewer when CPUs
+      are offline or the file is virtualised) -/
+  stat : k.statCpus ≤ k.ncpu
 
 theorem setProc_eq_replaced (k : Kernel) (pid : Nat) (st : PState) (e : Eff) :
     setProc k pid st e = Spec.replaced k pid st e := rfl
@@ -199,11 +202,11 @@ theorem refines_ionice (c : Cfg) (hg : c.Good) (k : Kernel) (pid : Nat) (st : PS
             hacc, resolve_pid k hpid, hst, ofSys, hmod, setProc_eq_replaced, Spec.ioprioValue]
     · cases hs
 
-/-- the region of the known finding `C18-ineligible-oserror`: every listed CPU exists, none is in
-    the cpuset, and the status line does not start with a range -/
+/-- the region of the (fixed) finding `C18-ineligible-oserror`: every listed CPU has a line in
+    `/proc/stat`, none is in the cpuset, and the status line does not start with a range -/
 def InFindingRegion (k : Kernel) (st : PState) : Req → Prop
   | .cpuAffinity (some cpus) =>
-    cpus ≠ [] ∧ (∀ c ∈ cpus, 0 ≤ c ∧ c.toNat < k.ncpu ∧ ¬ c.toNat ∈ st.cpuset) ∧
+    cpus ≠ [] ∧ (∀ c ∈ cpus, 0 ≤ c ∧ c.toNat < k.statCpus ∧ ¬ c.toNat ∈ st.cpuset) ∧
       statusRange st.affinity = none
   | _ => False
 
@@ -272,7 +275,7 @@ theorem refines_affinity (c : Cfg) (hg : c.Good) (k : Kernel) (pid : Nat) (st : 
       rename_i hemp
       simp only [Verdict.promised.injEq] at hs
       obtain ⟨rfl, rfl⟩ := hs
-      simp only [step, cpuAffinity, hemp, if_true, hg.empty]
+      simp only [step, cpuAffinity, hemp, if_true, hg.count, Bool.false_eq_true, if_false, hg.empty]
       have hl : AllLong ((List.range 1024).map Int.ofNat) := by
         intro v hv
         simp only [List.mem_map, List.mem_range] at hv
@@ -370,24 +373,25 @@ theorem refines_affinity (c : Cfg) (hg : c.Good) (k : Kernel) (pid : Nat) (st : 
           have hl : AllLong cpus := fun v hv => (hinv' v hv).1
           -- the diagnosis finds an offending CPU
           have hdiag : ∀ el, getEligibleCpus k pid = some el →
-              diagnose (List.range k.ncpu) el (dedup c cpus) = true := by
+              diagnose (List.range k.statCpus) el (dedup c cpus) = true := by
             intro el hel
             rw [diagnose_true]
-            by_cases hex : ∃ x ∈ cpus, x < 0 ∨ k.ncpu ≤ x.toNat
+            have hstat := hwf.stat
+            by_cases hex : ∃ x ∈ cpus, x < 0 ∨ k.statCpus ≤ x.toNat
             · obtain ⟨x, hx, hx'⟩ := hex
               refine ⟨x, (mem_dedup c cpus x).2 hx, ?_⟩
               rcases hx' with h | h
               · exact Or.inl h
               · right; left
-                cases hc : (List.range k.ncpu).contains x.toNat with
+                cases hc : (List.range k.statCpus).contains x.toNat with
                 | false => rfl
                 | true =>
                   rw [List.contains_iff_mem, List.mem_range] at hc; omega
             · -- all listed CPUs exist, so none is in the cpuset; outside the finding region
               -- the status line starts with a range, a part of the current mask
-              have hall : ∀ x ∈ cpus, 0 ≤ x ∧ x.toNat < k.ncpu ∧ ¬ x.toNat ∈ st.cpuset := by
+              have hall : ∀ x ∈ cpus, 0 ≤ x ∧ x.toNat < k.statCpus ∧ ¬ x.toNat ∈ st.cpuset := by
                 intro x hx
-                have h1 : ¬ (x < 0 ∨ k.ncpu ≤ x.toNat) := fun h => hex ⟨x, hx, h⟩
+                have h1 : ¬ (x < 0 ∨ k.statCpus ≤ x.toNat) := fun h => hex ⟨x, hx, h⟩
                 have h2 := (hinv' x hx).2
                 refine ⟨by omega, by omega, fun hc => ?_⟩
                 rcases h2 with h2 | h2
@@ -506,6 +510,7 @@ def stWitness : PState :=
   { nice := 0, ioprio := 0, affinity := [0], cpuset := [0, 1], rlimits := fun _ => (0, 0) }
 
 theorem wf_witness : WF kWitness stWitness :=
-  ⟨by decide, by decide, by decide, by decide, by decide, fun _ => ⟨by simp [stWitness], by simp [stWitness]⟩⟩
+  ⟨by decide, by decide, by decide, by decide, by decide, fun _ => ⟨by simp [stWitness], by simp [stWitness]⟩,
+    by decide⟩
 
 end Psutil.C18
